@@ -4,7 +4,7 @@
    completeness by a choice-free pigeonhole over atom indices) is in Proofs/LTLP.v,
    instantiated in Proofs/Assemble.v. *)
 From PMC Require Import Spec.Lemmas Proofs.Assemble.
-From PMC Require Proofs.LTLP Proofs.GraphP Proofs.SccP Proofs.InfPath.
+From PMC Require Proofs.LTLP Proofs.GraphP Proofs.SccP Proofs.InfPath Proofs.Corollaries2P.
 
 (* For EVERY well-formed total Kripke structure and EVERY LTL formula A g: the model
    returns exactly the states s such that every infinite path from s satisfies g. *)
@@ -25,6 +25,16 @@ Proof.
            PMC.Proofs.SccP.scc_correct PMC.Proofs.InfPath.gba).
 Qed.
 Print Assumptions C02_tableau.
+
+(* equivalently: a state is excluded exactly when some ULTIMATELY PERIODIC path from it
+   (a lasso  pre . cyc^omega) satisfies  not g *)
+Theorem C02_lasso : forall K g, wf_kripke K -> ltl_path g = true ->
+  forall S, ltl_modelcheck K (FA g) = Ok S -> forall s, In s (states K) ->
+  (~ In s S <-> exists pre cyc, cyc <> [] /\ is_path K (PMC.Proofs.InfPath.lasso pre cyc) /\
+                  PMC.Proofs.InfPath.lasso pre cyc 0 = s /\
+                  sat K (PMC.Proofs.InfPath.lasso pre cyc) (FNot g)).
+Proof. exact PMC.Proofs.Corollaries2P.ltl_excluded_iff_lasso. Qed.
+Print Assumptions C02_lasso.
 
 (* only formulas of the form A g with g quantifier-free are accepted *)
 Theorem C02_guard : forall K f, ltl_state f = false -> ltl_modelcheck K f = TypeErr.
